@@ -66,6 +66,10 @@ def GVol.reserve (s0 : GVol) (rand : Nat) : GVol × Nat × Option Nat :=
     ({ live := gAdvance s.live 1, boundary := nb }, s.live, some nb)
   else
     ({ live := gAdvance s.live 1, boundary := s.boundary }, s.live, none)
+/-- `unreserve_global_group_data_ctr(value)`: the store of the boundary returned with `value` failed;
+the counter goes back to `value` with nothing covered, so that the next reservation moves the
+boundary and demands the store again (the fix of finding C12-store-failure-group) -/
+def GVol.unreserve (value : Nat) : GVol := GVol.set value
 /-- `Sessions::new()` followed by `load_persist` (key absent = first boot) -/
 def GVol.load (durable : Option Nat) : GVol :=
   match durable with
@@ -77,8 +81,14 @@ structure GSys where
   vol : GVol
   /-- the `GROUP_DATA_COUNTER_KEY` blob (as a number), `none` = key absent -/
   durable : Option Nat
-  /-- `initiate_group` between `reserve` and the stash: the value and the boundary still to be stored -/
-  inflight : Option (Nat × Option Nat)
+  /-- inside the first critical section of `initiate_group` (the state lock is held): `reserve` has
+  returned `(value, Some boundary)` and the outcome of `kv.store(boundary)` is still open -/
+  inflight : Option (Nat × Nat)
+  /-- values held in the local variable `group_data_ctr` of `initiate_group` calls that have left
+  that critical section (no store was demanded, or the store succeeded) and have not reached their
+  stash yet. More than one entry = several `initiate_group` calls in progress at the same time
+  (possible with the `sync-mutex` cargo feature, where `Matter` is `Sync`) -/
+  held : List Nat
   /-- values stashed in `exch.group_data_ctr`, waiting for `pre_send` -/
   ready : List Nat
   /-- values that reached the wire, newest first (survives restarts: it is the observer's record) -/
@@ -86,17 +96,22 @@ structure GSys where
 deriving Repr, DecidableEq, Inhabited
 
 inductive GOp where
-  /-- `initiate_group` step 1: `reserve_global_group_data_ctr` (`rand` only matters on first use) -/
+  /-- `initiate_group`, critical section 1: `reserve_global_group_data_ctr` (`rand` only matters on
+  first use). If no boundary is returned the critical section ends here and the value is `held`. -/
   | reserve (rand : Nat)
-  /-- `initiate_group` step 2: `kv.store(GROUP_DATA_COUNTER_KEY, boundary)` if a boundary was returned -/
+  /-- critical section 1, continued: `kv.store(GROUP_DATA_COUNTER_KEY, boundary)` succeeds -/
   | store
-  /-- `initiate_group` step 3: `exch.group_data_ctr = Some(value)` (only reached after the store) -/
-  | stash
+  /-- critical section 1, continued: the store FAILS (`Err`, no power loss): the reservation is
+  undone by `unreserve_global_group_data_ctr(value)` and `initiate_group` returns the error -/
+  | storeFail
+  /-- `initiate_group`, last critical section, of the `i`-th call in progress:
+  `exch.group_data_ctr = Some(value)` -/
+  | stash (i : Nat)
   /-- `pre_send` of the `i`-th waiting exchange: the value goes on the wire -/
   | use (i : Nat)
-  /-- `initiate_group` fails AFTER its store (`initiate_for_session(..)?`: no free exchange slot):
-  the reservation is dropped, the value is never used -/
-  | abandon
+  /-- the `i`-th call in progress fails AFTER critical section 1 (`initiate_for_session(..)?`: no
+  free exchange slot): its value is dropped, never used -/
+  | abandon (i : Nat)
   /-- `mcsp.rs`: `get_or_init_global_group_data_ctr` (reports the counter, seeds it on first use) -/
   | peek (rand : Nat)
   /-- power loss + start-up -/
@@ -104,33 +119,36 @@ inductive GOp where
 deriving Repr, DecidableEq, Inhabited
 
 def GSys.boot (durable : Option Nat) : GSys :=
-  { vol := GVol.load durable, durable := durable, inflight := none, ready := [], used := [] }
+  { vol := GVol.load durable, durable := durable, inflight := none, held := [], ready := [], used := [] }
 
 def gStep (s : GSys) : GOp → GSys
   | .reserve rand =>
     match s.inflight with
-    | some _ => s      -- `initiate_group` is synchronous: no second reservation before it finishes
+    | some _ => s      -- the state lock is held until the store has succeeded or failed
     | none =>
       let r := s.vol.reserve rand
-      { s with vol := r.1, inflight := some (r.2.1, r.2.2) }
+      match r.2.2 with
+      | some b => { s with vol := r.1, inflight := some (r.2.1, b) }
+      | none => { s with vol := r.1, held := r.2.1 :: s.held }
   | .store =>
     match s.inflight with
-    | some (v, some b) => { s with durable := some b, inflight := some (v, none) }
-    | _ => s
-  | .stash =>
+    | some (v, b) => { s with durable := some b, inflight := none, held := v :: s.held }
+    | none => s
+  | .storeFail =>
     match s.inflight with
-    | some (v, none) => { s with inflight := none, ready := v :: s.ready }
-    | _ => s
+    | some (v, _) => { s with vol := GVol.unreserve v, inflight := none }
+    | none => s
+  | .stash i =>
+    match s.held[i]? with
+    | some v => { s with held := s.held.eraseIdx i, ready := v :: s.ready }
+    | none => s
   | .use i =>
     match s.ready[i]? with
     | some v => { s with ready := s.ready.eraseIdx i, used := v :: s.used }
     | none => s
-  | .abandon =>
-    match s.inflight with
-    | some (_, none) => { s with inflight := none }
-    | _ => s
+  | .abandon i => { s with held := s.held.eraseIdx i }
   | .peek rand => { s with vol := s.vol.getOrInit rand }
-  | .crash => { s with vol := GVol.load s.durable, inflight := none, ready := [] }
+  | .crash => { s with vol := GVol.load s.durable, inflight := none, held := [], ready := [] }
 
 def gRun (s : GSys) : List GOp → GSys
   | [] => s
@@ -172,6 +190,10 @@ inductive EOp where
   | push
   /-- `Events::push` interrupted by power loss right after its `store_tlv` (number never returned) -/
   | pushCrash
+  /-- `Events::push` while the KV store FAILS (`Err`, no power loss): when an epoch is due,
+  `store_tlv(..)?` returns before `next_event_number` is advanced — no number is handed out, nothing
+  changes, the next push tries the store again; when no store is due it is an ordinary push -/
+  | pushFail
   /-- power loss + start-up -/
   | crash
 deriving Repr, DecidableEq, Inhabited
@@ -188,6 +210,11 @@ def eStep (s : ESys) : EOp → ESys
     let r := s.vol.nextNumber
     let d := match r.2.1 with | some b => some b | none => s.durable
     { s with vol := EVol.load d, durable := d }
+  | .pushFail =>
+    let r := s.vol.nextNumber
+    match r.2.1 with
+    | some _ => s
+    | none => { vol := r.1, durable := s.durable, used := r.2.2 :: s.used }
   | .crash => { s with vol := EVol.load s.durable }
 
 def eRun (s : ESys) : List EOp → ESys
@@ -238,6 +265,9 @@ structure CSys where
   pending : Bool
   /-- a value was peeked with `next()` and sent, and `advance()` has not been called since -/
   peeked : Bool
+  /-- `IcdState::counter_persist_due`: `advance_counter` moved the boundary and its store failed;
+  `send_check_in` stores the boundary before it sends anything else -/
+  due : Bool
   /-- the application has obeyed the interface so far (see `cStep`, `.use`) -/
   well : Bool
   /-- Check-In counter values that reached the wire (one per batch), newest first -/
@@ -249,12 +279,17 @@ inductive COp where
   | boot (init : Nat)
   /-- `persist_counter`: store `persist_value()` -/
   | persist
+  /-- `persist_counter` whose store FAILS (`Err`, no power loss): nothing changes -/
+  | persistFail
   /-- `next_counter()` and send the batch with it -/
   | use
   /-- `CheckInCounter::advance()` alone (the application stores later, or crashes first) -/
   | advance
   /-- `Icd::advance_counter`: `advance()` and store the returned boundary at once -/
   | advanceStore
+  /-- `Icd::advance_counter` whose store FAILS (`Err`, no power loss): `advance()` has moved the
+  boundary, nothing was written, the write is marked as due (when no store is due: as `advanceStore`) -/
+  | advanceStoreFail
   /-- `invalidate_counter(delta)` = `advance_by(delta)` -/
   | jump (delta : Nat)
 deriving Repr, DecidableEq, Inhabited
@@ -262,13 +297,14 @@ deriving Repr, DecidableEq, Inhabited
 /-- first power-up of a device whose storage holds `durable` -/
 def CSys.boot (durable : Option Nat) (init epoch : Nat) : CSys :=
   { ctr := CK.new (match durable with | some d => d | none => init) epoch,
-    durable := durable, pending := true, peeked := false, well := true, used := [] }
+    durable := durable, pending := true, peeked := false, due := false, well := true, used := [] }
 
 def cStep (s : CSys) : COp → CSys
   | .boot init =>
     { s with ctr := CK.new (match s.durable with | some d => d | none => init) s.ctr.epoch,
-             pending := true, peeked := false }
-  | .persist => { s with durable := some s.ctr.persistValue, pending := false }
+             pending := true, peeked := false, due := false }
+  | .persist => { s with durable := some s.ctr.persistValue, pending := false, due := false }
+  | .persistFail => s
   | .use =>
     -- what the interface tells the application: store the boundary first (docs of `new`,
     -- `advance`, `advance_by`), and `advance` once per batch (docs of `next`)
@@ -282,6 +318,9 @@ def cStep (s : CSys) : COp → CSys
     match r.2 with
     | some b => { s with ctr := r.1, peeked := false, durable := some b, pending := false }
     | none => { s with ctr := r.1, peeked := false }
+  | .advanceStoreFail =>
+    let r := s.ctr.advance
+    { s with ctr := r.1, peeked := false, pending := s.pending || r.2.isSome, due := s.due || r.2.isSome }
   | .jump delta =>
     let r := s.ctr.advanceBy delta
     { s with ctr := r.1, pending := s.pending || r.2.isSome }
@@ -301,5 +340,17 @@ def fwd (n a b : Nat) : Nat := (b + n - a % n) % n
 
 /-- `b` is strictly ahead of `a` (serial-number arithmetic over a cycle of `n`) -/
 def ahead (n a b : Nat) : Bool := 1 ≤ fwd n a b && fwd n a b ≤ n / 2
+
+/-- what a restart resumes from when the storage holds `d` (`resume_global_group_data_ctr`: the
+blank 0 counts as 1) -/
+def gResume (d : Nat) : Nat := if d = 0 then 1 else d
+
+/-- group counter: the stored boundary `d` covers the value `v` — the values live in `1..mask`, a
+cycle of `mask` values, and the point a restart resumes from is strictly ahead of `v` -/
+def gCovers (v d : Nat) : Bool := v ≥ 1 && ahead mask (v - 1) (gResume d - 1)
+
+/-- Check-In counter: the stored boundary `d` covers the value `v` — a restart resumes with `d + 1`,
+so `v` may be `d` itself: the forward distance `v → d` over the u32 cycle is at most half the range -/
+def cCovers (v d : Nat) : Bool := fwd U32 v d ≤ U32 / 2
 
 end Counters
